@@ -71,7 +71,10 @@ def build_scenario(case, variant):
             big[1::3][:a.shape[0]] = a
             return big[1::3][:a.shape[0]]
         if variant == 'int64':   # only value arrays whose entries are all integral have an int64 twin
-            return a.astype(np.int64) if np.all(a == np.floor(a)) else np.ascontiguousarray(a.copy())
+            # ... and only below 2^30: products of larger integers overflow int64 silently inside
+            # NumPy (observed in knee_ranking.distances / rect_overlap on the pinned tree; see DESIGN 9.2)
+            ok = np.all(a == np.floor(a)) and (a.size == 0 or float(np.max(np.abs(a))) < 2 ** 30)
+            return a.astype(np.int64) if ok else np.ascontiguousarray(a.copy())
         raise ValueError(variant)
     s = Scn()
     s.n = n
@@ -79,6 +82,11 @@ def build_scenario(case, variant):
     s.x = s.P[:, 0]
     s.y = s.P[:, 1]
     s.coef = tuple(float(v) for v in L.lf.linear_fit_points(base))
+    ck = case.get('opt', {}).get('coef_kind', 'float')
+    if ck == 'int_slope':          # a coefficient pair may mix Python ints and floats
+        s.coef = (s.coef[0] + 0.5, int(round(s.coef[1])) or 1)
+    elif ck == 'int_both':
+        s.coef = (int(round(s.coef[0])), int(round(s.coef[1])) or 1)
     s.coef2 = (s.coef[0] + 1.0, s.coef[1] * 0.5 + 0.25)
     s.knees = np.array(case['knees'], dtype=int)
     s.reduced = np.array(case['reduced'], dtype=int)
@@ -234,7 +242,7 @@ OPTS = {'metric': S.METRICS, 'r2': ['classic', 'adjusted'], 'distance': S.DISTAN
         'cd': ['Increasing', 'Decreasing'], 'cc': ['Counterclockwise', 'Clockwise'],
         'peak': ['Kneedle', 'ZScore', 'Significant', 'All'], 'tau': [0, 1.0, 2.5],
         'fit': ['point_fit', 'best_fit'], 'lcost': ['rmse', 'rss'], 'ref': ['none', 'original', 'adjusted'],
-        'outlier': ['zscore', 'iqr', 'hampel'], 'flag': [False, True]}
+        'outlier': ['zscore', 'iqr', 'hampel'], 'flag': [False, True], 'coef_kind': ['float', 'float', 'int_slope', 'int_both']}
 
 
 @st.composite
@@ -282,6 +290,16 @@ def dyn_cases(draw, tier, force_integral=False, names=None):
             'i': draw(st.integers(0, 1000)),
             'opt': {k_: draw(st.sampled_from(v)) for k_, v in sorted(OPTS.items())}}
     return case
+
+
+DEFAULTS0 = {}
+
+
+def prepare(tier):
+    """Record every public function's default values before any call is made."""
+    for name, f in public_functions().items():
+        pyf = getattr(f, 'py_func', f)
+        DEFAULTS0[name] = snapshot(list(pyf.__defaults__ or ()))
 
 
 def snapshot(obj):
@@ -378,6 +396,26 @@ def oracle_dyn(case, rec):
     if before != after:
         idx = [i for i, (a, b) in enumerate(zip(before, after)) if a != b]
         rec.fail('impure:%s' % fn, 'argument(s) %r modified by the call' % idx)
+    pyf = getattr(f, 'py_func', f)
+    d_after = snapshot(list(pyf.__defaults__ or ()))
+    if d_after != DEFAULTS0.get(fn, d_after):
+        rec.fail('impure:%s' % fn, 'the default argument values of the function changed (mutable default mutated): %r' % (pyf.__defaults__,))
+    # history independence: an unrelated call in between must neither overwrite the first result
+    # nor change what the same call returns afterwards (module-level buffers, shared default caches)
+    n1 = len(rec.violations)
+    snap1 = copy.deepcopy(out) if not failed_base else None
+    other = dict(case)
+    other['pts'] = [[q[0], case['pts'][len(case['pts']) - 1 - i][1]] for i, q in enumerate(case['pts'])]
+    other['t'] = 0.05 if case['t'] != 0.05 else 0.2
+    other['reduced'] = [0] + case['reduced'][2:] if len(case['reduced']) > 3 else case['reduced']
+    other['kpos'] = [k_ for k_ in case['kpos'] if k_ < len(other['reduced']) - 1] or [min(1, len(other['reduced']) - 2)] if len(other['reduced']) > 2 else case['kpos']
+    if len(other['reduced']) > 2:
+        _invoke(rec, fn, f, other, 'C')
+    del rec.violations[n1:]
+    if not failed_base:
+        d = same(out, snap1, exact=True)
+        if d:
+            rec.fail('aliasing:%s' % fn, 'the result of the first call changed after a later, unrelated call: ' + d)
     # determinism
     n1 = len(rec.violations)
     out2, _, _, _ = _invoke(rec, fn, f, case, 'C')
